@@ -216,6 +216,10 @@ class EncoderWalker:
                 if name in self.mask_vars:
                     self.contribution(st.value, env, name, st.lineno, path, True)
                     return
+                r_ = self.field_of(st.value, env) if name not in env else None
+                if r_ and not r_[2]:
+                    env[name] = (r_[0], r_[1])  # local alias of an attribute: `ring_sizes = a.ring_sizes`
+                    return
                 if name in env:
                     if isinstance(st.value, ast.Constant) and isinstance(st.value.value, int):
                         f, ops = env[name]
